@@ -25,6 +25,7 @@ package main
 
 import (
 	"fmt"
+	"sort"
 	"go/ast"
 	"go/constant"
 	"go/token"
@@ -103,6 +104,31 @@ func (g *gen) atomicAddOne(e ast.Expr) (string, bool) {
 		return "", false
 	}
 	return v.Name(), true
+}
+
+// f() where f is a function of this package without parameters whose body is `return <expr>`:
+// the expression it returns (one level of inlining for helpers such as nextCid())
+func (g *gen) inlineNullary(e ast.Expr) ast.Expr {
+	ce, ok := e.(*ast.CallExpr)
+	if !ok || len(ce.Args) != 0 {
+		return e
+	}
+	id, ok := ce.Fun.(*ast.Ident)
+	if !ok {
+		return e
+	}
+	fn, ok := g.p.TypesInfo.Uses[id].(*types.Func)
+	if !ok || fn.Pkg() != g.p.Types {
+		return e
+	}
+	for _, fd := range g.funcDecls() {
+		if fd.Recv == nil && fd.Name.Name == id.Name && len(fd.Body.List) == 1 {
+			if rs, ok := fd.Body.List[0].(*ast.ReturnStmt); ok && len(rs.Results) == 1 {
+				return rs.Results[0]
+			}
+		}
+	}
+	return e
 }
 
 // strip integer conversions int(x), int64(x), ...
@@ -201,7 +227,7 @@ func (g *gen) loggerWithContext(fd *ast.FuncDecl) ([]skelEv, bool, string) {
 			} else {
 				lobj = g.p.TypesInfo.Uses[lid]
 			}
-			rhs := g.stripConv(s.Rhs[0])
+			rhs := g.stripConv(g.inlineNullary(g.stripConv(s.Rhs[0])))
 			if n, ok := g.atomicAddOne(rhs); ok && setCounter(n) {
 				evs = append(evs, skelEv{"atomic_add", n})
 				regLocals = map[types.Object]bool{lobj: true}
@@ -240,7 +266,7 @@ func (g *gen) loggerWithContext(fd *ast.FuncDecl) ([]skelEv, bool, string) {
 			if k, ok := g.pkgVar(ce.Args[1]); !ok || k.Name() != "cidKey" {
 				return nil, false, "context key is not cidKey"
 			}
-			val := g.stripConv(ce.Args[2])
+			val := g.stripConv(g.inlineNullary(g.stripConv(ce.Args[2])))
 			if n, ok := g.atomicAddOne(val); ok && setCounter(n) {
 				evs = append(evs, skelEv{"atomic_add", n}, skelEv{"ret_reg", ""})
 			} else if v, ok := g.pkgVar(val); ok && setCounter(v.Name()) {
@@ -379,6 +405,9 @@ func wsMentions(n ast.Node, names ...string) bool {
 	return found
 }
 
+// unexported Conn helpers inlined into the skeleton of an entry point (per run of the websocket generator)
+var wsInlined = map[string]bool{}
+
 var wsSensitive = []string{"mu", "conn", "writeErr", "writeFatal"}
 
 func exprStr(e ast.Expr) string {
@@ -399,6 +428,9 @@ func isSendMu(s ast.Stmt) bool {
 }
 
 type wsWalker struct {
+	g        *gen
+	depth    int
+	inlined  map[string]bool // unexported Conn helpers whose body was inlined
 	evs      []skelEv
 	deferred []skelEv
 	errVar   string // variable that holds the value read from c.writeErr, pending its test
@@ -407,6 +439,71 @@ type wsWalker struct {
 }
 
 func (w *wsWalker) ev(k, a string) { w.evs = append(w.evs, skelEv{k, a}) }
+
+// c.m(..) where m is an unexported method of Conn declared in this package
+func (w *wsWalker) connHelper(e ast.Expr) (*ast.FuncDecl, *ast.CallExpr) {
+	ce, ok := e.(*ast.CallExpr)
+	if !ok {
+		return nil, nil
+	}
+	sel, ok := ce.Fun.(*ast.SelectorExpr)
+	if !ok || exprStr(sel.X) != "c" || ast.IsExported(sel.Sel.Name) {
+		return nil, nil
+	}
+	switch sel.Sel.Name {
+	case "write", "writeFatal", "prepWrite":
+		return nil, nil // entry points / known primitives, not helpers
+	}
+	return w.g.methodDecl("Conn", sel.Sel.Name), ce
+}
+
+// a helper that only returns the sticky error: [lock;] x := c.writeErr [;unlock]; return x  (or return c.writeErr)
+func (w *wsWalker) isStickyRead(e ast.Expr) bool {
+	md, ce := w.connHelper(e)
+	if md == nil || len(ce.Args) != 0 {
+		return false
+	}
+	v := ""
+	for _, st := range md.Body.List {
+		switch s := st.(type) {
+		case *ast.ExprStmt:
+			if x := exprStr(s.X); x != "c.writeErrMu.Lock()" && x != "c.writeErrMu.Unlock()" {
+				return false
+			}
+		case *ast.DeferStmt:
+			if exprStr(s.Call) != "c.writeErrMu.Unlock()" {
+				return false
+			}
+		case *ast.AssignStmt:
+			if len(s.Lhs) != 1 || len(s.Rhs) != 1 || exprStr(s.Rhs[0]) != "c.writeErr" {
+				return false
+			}
+			v = exprStr(s.Lhs[0])
+		case *ast.ReturnStmt:
+			if len(s.Results) != 1 {
+				return false
+			}
+			r := exprStr(s.Results[0])
+			return (v != "" && r == v) || r == "c.writeErr"
+		default:
+			return false
+		}
+	}
+	return false
+}
+
+// inline an unexported Conn helper that touches the lock / the transport / the sticky error
+func (w *wsWalker) tryInline(e ast.Expr) bool {
+	md, _ := w.connHelper(e)
+	if md == nil || w.depth >= 2 || !wsMentions(md.Body, wsSensitive...) {
+		return false
+	}
+	w.depth++
+	w.stmts(md.Body.List)
+	w.depth--
+	w.inlined[md.Name.Name] = true
+	return true
+}
 
 func (w *wsWalker) isReturnOf(body *ast.BlockStmt, want string) bool {
 	if len(body.List) != 1 {
@@ -438,6 +535,9 @@ func (w *wsWalker) stmts(list []ast.Stmt) {
 				continue
 			case strings.HasPrefix(str, "c.conn.Write("):
 				w.ev("write", "nofatal")
+				continue
+			}
+			if w.tryInline(s.X) {
 				continue
 			}
 			if wsMentions(st, wsSensitive...) {
@@ -492,7 +592,7 @@ func (w *wsWalker) stmts(list []ast.Stmt) {
 				w.bad = "send touching shared state"
 			}
 		case *ast.AssignStmt:
-			if len(s.Rhs) == 1 && exprStr(s.Rhs[0]) == "c.writeErr" && len(s.Lhs) == 1 {
+			if len(s.Rhs) == 1 && (exprStr(s.Rhs[0]) == "c.writeErr" || w.isStickyRead(s.Rhs[0])) && len(s.Lhs) == 1 {
 				w.errVar = exprStr(s.Lhs[0])
 				// look ahead: [c.writeErrMu.Unlock()] if errVar != nil { return errVar }
 				j := i + 1
@@ -537,6 +637,24 @@ func (w *wsWalker) stmts(list []ast.Stmt) {
 			}
 		case *ast.IfStmt:
 			cond := exprStr(s.Cond)
+			if as, ok := s.Init.(*ast.AssignStmt); ok && s.Else == nil && len(as.Rhs) == 1 {
+				errName := exprStr(as.Lhs[len(as.Lhs)-1])
+				// if err := c.stickyErr(); err != nil { return err }       (or inline c.writeErr)
+				if (w.isStickyRead(as.Rhs[0]) || exprStr(as.Rhs[0]) == "c.writeErr") && len(as.Lhs) == 1 &&
+					cond == errName+" != nil" && w.isReturnOf(s.Body, errName) {
+					w.ev("test_err", "writeErr")
+					continue
+				}
+				// if _, err := c.conn.Write(buf); err != nil { return c.writeFatal(err) }
+				if strings.HasPrefix(exprStr(as.Rhs[0]), "c.conn.Write(") && cond == errName+" != nil" {
+					if w.isReturnOf(s.Body, "c.writeFatal("+errName+")") {
+						w.ev("write", "fatal")
+					} else {
+						w.ev("write", "nofatal")
+					}
+					continue
+				}
+			}
 			if s.Init == nil && s.Else == nil && strings.HasSuffix(cond, " == CloseMessage") && len(s.Body.List) == 1 {
 				if es, ok := s.Body.List[0].(*ast.ExprStmt); ok && exprStr(es.X) == "c.writeFatal(ErrCloseSent)" {
 					w.ev("latch_close", "ErrCloseSent")
@@ -566,6 +684,15 @@ func (w *wsWalker) stmts(list []ast.Stmt) {
 			if held > 0 && len(w.deferred) == 0 && !w.earlyDefer {
 				w.bad = "return while holding the lock without a deferred release"
 			}
+			if len(s.Results) == 1 {
+				if w.isStickyRead(s.Results[0]) {
+					w.ev("test_err_ret", "writeErr")
+					continue
+				}
+				if w.tryInline(s.Results[0]) {
+					continue
+				}
+			}
 			if wsMentions(st, "mu", "conn", "writeFatal") {
 				w.bad = "return expression touching shared state"
 			}
@@ -578,7 +705,7 @@ func (w *wsWalker) stmts(list []ast.Stmt) {
 }
 
 func (g *gen) wsFuncSkel(name string, fd *ast.FuncDecl) {
-	w := &wsWalker{}
+	w := &wsWalker{g: g, inlined: wsInlined}
 	w.stmts(fd.Body.List)
 	evs := append(w.evs, w.deferred...)
 	g.emitSkel(name, evs, w.bad == "", w.bad)
@@ -668,6 +795,40 @@ func init() {
 				g.emitSkel("websocket_"+strings.Replace(strings.TrimPrefix(n, "Conn."), "messageWriter.", "", 1)+"_skel", nil, false, "function not found")
 			}
 		}
+		{
+			var out []skelEv
+			for _, st := range sites {
+				helper := strings.TrimPrefix(st.kind, "Conn.")
+				if st.kind == "Conn."+helper && wsInlined[helper] {
+					// every call site of the helper in the package
+					callers := map[string]bool{}
+					for _, fd := range g.funcDecls() {
+						rn := recvName(fd)
+						full := fd.Name.Name
+						if rn != "" {
+							full = rn + "." + fd.Name.Name
+						}
+						ast.Inspect(fd.Body, func(n ast.Node) bool {
+							if ce, ok := n.(*ast.CallExpr); ok && exprStr(ce.Fun) == "c."+helper {
+								callers[full] = true
+							}
+							return true
+						})
+					}
+					names := make([]string, 0, len(callers))
+					for c := range callers {
+						names = append(names, c)
+					}
+					sort.Strings(names)
+					for _, c := range names {
+						out = append(out, skelEv{c, st.arg})
+					}
+					continue
+				}
+				out = append(out, st)
+			}
+			sites = out
+		}
 		g.emitSkel("websocket_reader_side_writes", handlerCalls, true, "")
 		g.emitSkel("websocket_transport_write_sites", sites, true, "")
 		g.pf("\n")
@@ -694,30 +855,117 @@ func init() {
 //	    accesses to v.input.transactions and operations on v.input.ltransactions in program
 //	    order: ("lock",..) ("unlock",..) ("map_store",..) ("map_load",..) ("map_delete",..);
 //	    a deferred Unlock is placed at the end of the function (literal) that defers it.
-func (g *gen) txScope(body *ast.BlockStmt) []skelEv {
+// the transaction table and its lock are found by TYPE and role, not by name: inside Protocol (or one
+// of its anonymous struct fields) the map field and the sync.Mutex field next to it
+type txNames struct{ tabSel, lockSel, tabField, lockField string }
+
+func (g *gen) txFind() (n txNames) {
+	obj := g.p.Types.Scope().Lookup("Protocol")
+	if obj == nil {
+		return
+	}
+	st, ok := obj.Type().Underlying().(*types.Struct)
+	if !ok {
+		return
+	}
+	look := func(prefix string, s *types.Struct) bool {
+		tab, lock := "", ""
+		for i := 0; i < s.NumFields(); i++ {
+			f := s.Field(i)
+			if _, isMap := f.Type().Underlying().(*types.Map); isMap && tab == "" {
+				tab = f.Name()
+			}
+			if strings.HasSuffix(f.Type().String(), "sync.Mutex") && lock == "" {
+				lock = f.Name()
+			}
+		}
+		if tab != "" && lock != "" {
+			n = txNames{prefix + tab, prefix + lock, tab, lock}
+			return true
+		}
+		return false
+	}
+	for i := 0; i < st.NumFields(); i++ {
+		if inner, ok := st.Field(i).Type().Underlying().(*types.Struct); ok && look("v."+st.Field(i).Name()+".", inner) {
+			// prefer the struct that also holds the chunk map? the first struct with a map AND a mutex is it
+			if _, isMapOfString := inner.Field(0).Type().Underlying().(*types.Map); isMapOfString || true {
+				// the table is the map whose lock sits beside it; a struct with several maps: take the
+				// map declared right before the mutex
+				for k := 1; k < inner.NumFields(); k++ {
+					if strings.HasSuffix(inner.Field(k).Type().String(), "sync.Mutex") {
+						if _, isMap := inner.Field(k-1).Type().Underlying().(*types.Map); isMap {
+							p := "v." + st.Field(i).Name() + "."
+							n = txNames{p + inner.Field(k-1).Name(), p + inner.Field(k).Name(), inner.Field(k-1).Name(), inner.Field(k).Name()}
+						}
+					}
+				}
+			}
+			return
+		}
+	}
+	look("v.", st)
+	return
+}
+
+func (g *gen) methodDecl(recv, name string) *ast.FuncDecl {
+	for _, fd := range g.funcDecls() {
+		if recvName(fd) == recv && fd.Name.Name == name {
+			return fd
+		}
+	}
+	return nil
+}
+
+type txWalk struct {
+	g       *gen
+	n       txNames
+	inlined map[string]bool // unexported Protocol helpers whose accesses were inlined into a caller's skeleton
+}
+
+func (w *txWalk) scope(body *ast.BlockStmt, depth int) []skelEv {
+	g := w.g
 	var evs, deferred []skelEv
 	handled := map[ast.Node]bool{}
-	isTab := func(e ast.Expr) bool { return exprStr(e) == "v.input.transactions" }
+	isTab := func(e ast.Expr) bool { return exprStr(e) == w.n.tabSel }
 	ast.Inspect(body, func(n ast.Node) bool {
 		switch x := n.(type) {
 		case *ast.FuncLit:
-			evs = append(evs, g.txScope(x.Body)...)
+			evs = append(evs, w.scope(x.Body, depth)...)
 			return false
 		case *ast.DeferStmt:
-			if exprStr(x.Call.Fun) == "v.input.ltransactions.Unlock" {
-				deferred = append([]skelEv{{"unlock", "ltransactions"}}, deferred...)
+			if exprStr(x.Call.Fun) == w.n.lockSel+".Unlock" {
+				deferred = append([]skelEv{{"unlock", "table lock"}}, deferred...)
 				return false
 			}
 		case *ast.CallExpr:
 			switch exprStr(x.Fun) {
-			case "v.input.ltransactions.Lock":
-				evs = append(evs, skelEv{"lock", "ltransactions"})
-			case "v.input.ltransactions.Unlock":
-				evs = append(evs, skelEv{"unlock", "ltransactions"})
+			case w.n.lockSel + ".Lock":
+				evs = append(evs, skelEv{"lock", "table lock"})
+			case w.n.lockSel + ".Unlock":
+				evs = append(evs, skelEv{"unlock", "table lock"})
 			case "delete":
 				if len(x.Args) == 2 && isTab(x.Args[0]) {
-					evs = append(evs, skelEv{"map_delete", "transactions"})
+					evs = append(evs, skelEv{"map_delete", "table"})
 					handled[x.Args[0]] = true
+				}
+			default:
+				// an unexported helper method of Protocol that touches the table: its accesses happen
+				// here (a `defer unlock` inside it covers its own body)
+				if sel, ok := x.Fun.(*ast.SelectorExpr); ok && exprStr(sel.X) == "v" && depth < 2 && !ast.IsExported(sel.Sel.Name) {
+					if md := g.methodDecl("Protocol", sel.Sel.Name); md != nil && wsMentions(md.Body, w.n.tabField, w.n.lockField) {
+						// arguments are evaluated before the call
+						for _, a := range x.Args {
+							ast.Inspect(a, func(m ast.Node) bool {
+								if ie, ok := m.(*ast.IndexExpr); ok && isTab(ie.X) {
+									evs = append(evs, skelEv{"map_load", "table"})
+									handled[ie] = true
+								}
+								return true
+							})
+						}
+						evs = append(evs, w.scope(md.Body, depth+1)...)
+						w.inlined[sel.Sel.Name] = true
+					}
 				}
 			}
 		case *ast.AssignStmt:
@@ -727,29 +975,67 @@ func (g *gen) txScope(body *ast.BlockStmt) []skelEv {
 					for _, r := range x.Rhs {
 						ast.Inspect(r, func(m ast.Node) bool {
 							if ie2, ok := m.(*ast.IndexExpr); ok && isTab(ie2.X) {
-								evs = append(evs, skelEv{"map_load", "transactions"})
+								evs = append(evs, skelEv{"map_load", "table"})
 								handled[ie2] = true
 							}
 							return true
 						})
 					}
-					evs = append(evs, skelEv{"map_store", "transactions"})
+					evs = append(evs, skelEv{"map_store", "table"})
 					handled[ie] = true
+				}
+			}
+			// replacing the whole table is an access too
+			for _, l := range x.Lhs {
+				if isTab(l) {
+					evs = append(evs, skelEv{"map_replace", "table"})
 				}
 			}
 		case *ast.IndexExpr:
 			if isTab(x.X) && !handled[x] {
-				evs = append(evs, skelEv{"map_load", "transactions"})
+				evs = append(evs, skelEv{"map_load", "table"})
 				handled[x] = true
 			}
 		case *ast.RangeStmt:
 			if isTab(x.X) {
-				evs = append(evs, skelEv{"map_range", "transactions"})
+				evs = append(evs, skelEv{"map_range", "table"})
 			}
 		}
 		return true
 	})
 	return append(evs, deferred...)
+}
+
+// the guard under which a function touches the table; a call to a one-line predicate of this package
+// with the same argument names is replaced by its body
+func (g *gen) guardText(cond ast.Expr) string {
+	if ce, ok := cond.(*ast.CallExpr); ok {
+		if id, ok := ce.Fun.(*ast.Ident); ok {
+			for _, fd := range g.funcDecls() {
+				if fd.Recv != nil || fd.Name.Name != id.Name || len(fd.Body.List) != 1 {
+					continue
+				}
+				rs, ok := fd.Body.List[0].(*ast.ReturnStmt)
+				if !ok || len(rs.Results) != 1 {
+					continue
+				}
+				var params []string
+				for _, p := range fd.Type.Params.List {
+					for _, nm := range p.Names {
+						params = append(params, nm.Name)
+					}
+				}
+				same := len(params) == len(ce.Args)
+				for i := 0; same && i < len(params); i++ {
+					same = exprStr(ce.Args[i]) == params[i]
+				}
+				if same {
+					return exprStr(rs.Results[0])
+				}
+			}
+		}
+	}
+	return exprStr(cond)
 }
 
 func init() {
@@ -759,10 +1045,16 @@ func init() {
 		}
 		g.pf("(* synchronisation skeletons (gen_skel.go) *)\n")
 		seen := map[string]bool{}
+		tw := &txWalk{g: g, n: g.txFind(), inlined: map[string]bool{}}
+		if tw.n.tabSel == "" {
+			g.pf("(* the transaction table and its lock were not found in Protocol *)\nDefinition rtmp_transactions_unsupported := tt.\n")
+			return
+		}
 		var others []skelEv // any other function touching the table
+		var pendingOthers []string // Protocol methods touching the table: reported unless inlined into a skeleton
 		for _, fd := range g.funcDecls() {
 			if recvName(fd) != "Protocol" {
-				if fd.Body != nil && wsMentions(fd.Body, "transactions") {
+				if fd.Body != nil && wsMentions(fd.Body, tw.n.tabField) {
 					others = append(others, skelEv{fd.Name.Name, "touches transactions"})
 				}
 				if fd.Name.Name == "requestTransaction" && fd.Recv == nil {
@@ -831,7 +1123,7 @@ func init() {
 					}
 					return true
 				})
-				if wsMentions(fd.Body, "transactions", "ltransactions") {
+				if wsMentions(fd.Body, tw.n.tabField, tw.n.lockField) {
 					evs = append(evs, skelEv{"direct_table_access", "WritePacket"})
 				}
 				g.emitSkel("rtmp_WritePacket_skel", evs, true, "")
@@ -861,13 +1153,13 @@ func init() {
 					}
 					return true
 				})
-				if wsMentions(fd.Body, "transactions", "ltransactions") {
+				if wsMentions(fd.Body, tw.n.tabField, tw.n.lockField) {
 					evs = append(evs, skelEv{"direct_table_access", "WriteMessage"})
 				}
 				g.emitSkel("rtmp_WriteMessage_skel", evs, true, "")
 				seen["WriteMessage"] = true
 			case "onPacketWriten", "onPacketWriteFailed":
-				g.emitSkel("rtmp_"+fd.Name.Name+"_skel", g.txScope(fd.Body), true, "")
+				g.emitSkel("rtmp_"+fd.Name.Name+"_skel", tw.scope(fd.Body, 0), true, "")
 				seen[fd.Name.Name] = true
 				// WHICH packets does it apply to: where do (tid, name) come from, and under which guard
 				var src []skelEv
@@ -880,21 +1172,33 @@ func init() {
 							}
 						}
 					case *ast.IfStmt:
-						if x.Init == nil && wsMentions(x.Body, "transactions") {
-							src = append(src, skelEv{"guard", exprStr(x.Cond)})
+						if len(tw.scope(x.Body, 0)) > 0 {
+							src = append(src, skelEv{"guard", g.guardText(x.Cond)})
 						}
 					case *ast.TypeSwitchStmt:
 						src = append(src, skelEv{"kinds_from", "type switch in " + fd.Name.Name})
 					}
 					return true
 				})
-				g.emitSkel("rtmp_"+fd.Name.Name+"_kinds", src, true, "")
+				// canonical order: where the packets come from, then the guard(s)
+				var ordered []skelEv
+				for _, e := range src {
+					if e.kind == "kinds_from" {
+						ordered = append(ordered, e)
+					}
+				}
+				for _, e := range src {
+					if e.kind != "kinds_from" {
+						ordered = append(ordered, e)
+					}
+				}
+				g.emitSkel("rtmp_"+fd.Name.Name+"_kinds", ordered, true, "")
 			case "parseAMFObject":
-				g.emitSkel("rtmp_parseAMFObject_tx_skel", g.txScope(fd.Body), true, "")
+				g.emitSkel("rtmp_parseAMFObject_tx_skel", tw.scope(fd.Body, 0), true, "")
 				seen[fd.Name.Name] = true
 			default:
-				if wsMentions(fd.Body, "transactions") && fd.Name.Name != "NewProtocol" {
-					others = append(others, skelEv{"Protocol." + fd.Name.Name, "touches transactions"})
+				if wsMentions(fd.Body, tw.n.tabField) && fd.Name.Name != "NewProtocol" {
+					pendingOthers = append(pendingOthers, fd.Name.Name)
 				}
 			}
 		}
@@ -906,6 +1210,11 @@ func init() {
 				if n == "onPacketWriten" || n == "onPacketWriteFailed" {
 					g.emitSkel("rtmp_"+n+"_kinds", []skelEv{}, true, "")
 				}
+			}
+		}
+		for _, nm := range pendingOthers {
+			if !tw.inlined[nm] {
+				others = append(others, skelEv{"Protocol." + nm, "touches transactions"})
 			}
 		}
 		g.emitSkel("rtmp_transactions_other_sites", others, true, "")
